@@ -96,7 +96,7 @@ Theorem diff_is_derivative :
 Proof.
   apply pvs_ind.
   - intros v t _. cbn [pval_v Dv]. apply (dlim3_const v t).
-  - intros f f' t H. cbn [pval_v Dv wf_v] in *. exact H.
+  - intros f n t H. cbn [pval_v Dv wf_v] in *. exact H.
   - intros x IHx y IHy t [Hx Hy]. cbn [pval_v Dv].
     exact (dlim3_add _ _ _ _ _ (IHx t Hx) (IHy t Hy)).
   - intros k IHk x IHx t [Hk Hx]. cbn [pval_v Dv].
